@@ -134,6 +134,22 @@ CLAIMED = {
             "Trusted: Lean kernel; tools/translate_ct.py; the C compiler (ternary of constants -> setcc/cmov); linker interposition sees only "
             "calls that cross object files; k = 0, P = O and the sign of an exponent are treated as public.",
             "DESIGN.md §6 (C20)"),
+    "C08": ("Lean 4 proofs of the length bookkeeping (fits-or-error) of the modelled functions + every correspondence stream of C01/C02/C03/"
+            "C07/C09/C14/C15 and dedicated buffer-boundary sweeps executed against AddressSanitizer+UBSan builds of the working tree, with "
+            "guard words and cross-build output comparison",
+            "Proved in Lean (45 theorems incl. Lemmas/Bounds.lean): for every operand, a successful bn add/sub/mul/sqr/shift/dbl/mul_dig "
+            "result has at most max(capacity,1) digits, every recoding (win/slw/naf/reg/jsf) produces at most the caller's buffer length or "
+            "reports an error, byte/string encodings write exactly/at most the requested length, decoding refuses inputs beyond the capacity, "
+            "the KDF fills exactly the requested bytes. These are theorems about the models, tied to the code by the C01/C07/C09/C14 "
+            "correspondence. OBSERVED, not proved: absence of out-of-bounds access, undefined shifts, use of freed/uninitialised storage in "
+            "the C code, decided per presented line (~31000 lines per quick run on the 64-bit and 8-bit-digit builds) by ASan+UBSan builds "
+            "rebuilt from the working tree, guard words around every caller buffer and comparison of the sanitizer build's output with the "
+            "optimised build's. PARTIAL: allocation-failure points of ALLOC=DYNAMIC builds are not enumerated; protocol-level buffers (cp_rsa) "
+            "belong to the C05/C06 streams.",
+            "Trusted: Lean kernel; sanitizer runtime and compiler; harness guard words for buffers that live inside static arrays; the "
+            "quantifier 'every argument combination' is covered by structured streams (all operand lengths up to capacity+1, buffer lengths "
+            "needed-3..needed+2), not by a theorem about the C code.",
+            "DESIGN.md §S.2 (C08)"),
 }
 
 PENDING_REASON = {
